@@ -279,6 +279,25 @@ def cef_checks(rng):
                 bad.append(dict(what='CombinedExtendedFunction does not evaluate every function once, producers first', input=dict(kind='cef', perm=list(perm)), observed=list(mod.CALLS), signature=dict(what='cef-eval')))
         except Exception as ex:
             bad.append(dict(what=f'CombinedExtendedFunction raised {type(ex).__name__}: {ex} on a valid graph with a requested output subset', input=dict(kind='cef', perm=list(perm)), signature=dict(what='cef-raise')))
+    # call_on_deviations: only the functions that a changed input reaches AND a requested output needs; add / remove / children keep a valid graph
+    n += 1
+    try:
+        cf = CombinedExtendedFunction(fs)
+        ssd = cf(dict(x=1., y=3., z=5.))
+        dv = cf.call_on_deviations(ssd, dict(x=2.))
+        if set(dv) != {'a', 'b', 'c'} or dv['a'] != 3. or dv['b'] != 9. or dv['c'] != 6.:
+            bad.append(dict(what='call_on_deviations does not re-evaluate exactly the functions downstream of the changed input', input=dict(kind='cef', deviations=['x']), observed=str(dv), signature=dict(what='cef-deviations')))
+        dv2 = cf.call_on_deviations(ssd, dict(y=4.), outputs=['c'])
+        if dv2 != {'c': 6.}:
+            bad.append(dict(what='call_on_deviations with requested outputs is wrong', input=dict(kind='cef', deviations=['y'], outputs=['c']), observed=str(dv2), signature=dict(what='cef-deviations')))
+        smaller = cf.remove('fd')
+        bigger = smaller.add(mod.fd)
+        both = cf.remove(['fc', 'fd']).add([mod.fd, mod.fc])
+        if set(smaller.outputs) != {'a', 'b', 'c'} or set(smaller.inputs) != {'x', 'y'} or set(bigger.outputs) != set(cf.outputs) or set(bigger.inputs) != set(cf.inputs) \
+                or set(both.children()) != {'fa', 'fb', 'fc', 'fd'} or both(dict(x=1., y=3., z=5.))['c'] != 4.:
+            bad.append(dict(what='add / remove on a CombinedExtendedFunction do not give the graph of the remaining functions', input=dict(kind='cef', op='add-remove'), signature=dict(what='cef-add-remove')))
+    except Exception as ex:
+        bad.append(dict(what=f'CombinedExtendedFunction add/remove/call_on_deviations raised {type(ex).__name__}: {ex}', input=dict(kind='cef', op='add-remove'), signature=dict(what='cef-raise')))
     for extra, want in ((mod.fcyc, 'cyclic'), (mod.fdup, 'output twice')):
         n += 1
         try:
@@ -288,6 +307,35 @@ def cef_checks(rng):
             if want not in str(ex):
                 bad.append(dict(what=f'unexpected error text: {ex}', input=dict(kind='cef', extra=extra.__name__), signature=dict(what='cef-msg')))
     return bad[:3], n
+
+
+def parent_checks():
+    """name bookkeeping of nested models: every descendant is found by name at any depth, paths run from the model to the block, name collisions are refused"""
+    from lib import models as MM
+    from sequence_jacobian import combine
+    m = MM.load()
+    bad, n = [], 0
+    nm, inner = m.nested()
+    mid = combine([inner, m.pricing], name='mid')
+    top = combine([mid, m.extra], name='top')
+    for name, path in (('prod', ['top', 'mid', 'inner_solved', 'inner', 'prod']), ('inner_solved', ['top', 'mid', 'inner_solved']), ('pricing', ['top', 'mid', 'pricing']), ('extra', ['top', 'extra']), ('top', ['top'])):
+        n += 1
+        try:
+            blk = top[name]
+            got = top.path(name)
+            if blk.name != name or got != path:
+                bad.append(dict(what='a nested model does not find a descendant block by name / reports a wrong path to it', input=dict(kind='parent', name=name), observed=dict(found=blk.name, path=got), expected=path, signature=dict(what='parent-lookup')))
+        except Exception as ex:
+            bad.append(dict(what=f'looking up descendant {name} raised {type(ex).__name__}: {ex}', input=dict(kind='parent', name=name), signature=dict(what='parent-lookup')))
+    # (a leaf block named like a nested descendant is NOT refused by the package; that is outside the property's statement and only noted in DESIGN)
+    for label, build in (('two nested parents share a descendant name', lambda: combine([mid, combine([m.extra, m.pricing.rename('pricing')], name='other')], name='clash')), ('model named like a descendant', lambda: combine([mid, m.extra], name='pricing'))):
+        n += 1
+        try:
+            build()
+            bad.append(dict(what=f'a model with colliding block names was accepted ({label})', input=dict(kind='parent', case=label), signature=dict(what='parent-collision')))
+        except ValueError:
+            pass
+    return bad, n
 
 
 def oracle(ctx, hints, broken):
@@ -320,6 +368,13 @@ def oracle(ctx, hints, broken):
                 C.push(viol, v)
                 break
     b, k = cef_checks(rng)
+    viol += b
+    n += k
+    try:
+        b, k = parent_checks()
+    except Exception as ex:
+        import traceback
+        b, k = [dict(what=f'parent_checks raised {type(ex).__name__}: {ex}', input=dict(kind='parent', trace=traceback.format_exc()[-500:]), signature=dict(what='parent-raise'))], 1
     viol += b
     n += k
     return dict(evaluations=n, violations=viol,
